@@ -1,6 +1,6 @@
 (* C04 — A torn or padded log tail is repaired and loses nothing but the torn command.
    Only the property theorems, each closed by a lemma of Proofs/. *)
-From T38 Require Import Base.Bytes Model.Resp Model.Aof Proofs.RespProofs Proofs.AofProofs.
+From T38 Require Import Base.Bytes Model.Resp Model.Aof Proofs.RespProofs Proofs.AofProofs Proofs.ChunkProofs.
 Local Open Scope Z_scope.
 
 (* What writeAOF appends is read back exactly, whatever follows it in the buffer. *)
@@ -41,9 +41,29 @@ Theorem c04_append_after : forall cmds q s more,
 Proof. exact load_after_append. Qed.
 Print Assumptions c04_append_after.
 
-(* The 0xFFFF-chunked loop (Model/Aof.v load_chunks / load_aof) is tied to the real loadAOF and to
-   load_whole by correspondence only (harness: real server on files with values spanning chunks;
-   model load_aof_sz with chunk sizes 1..40 against load_whole); see docs/notes/C04.md. *)
+(* The chunked read loop of loadAOF with its carry-over buffer computes exactly what one-shot parsing
+   computes, for EVERY way the reads cut the file (NULs are skipped only where a command starts; the
+   carry-over is prepended untouched), on every file on whose prefixes the parser does not panic. *)
+Theorem c04_chunked_eq_whole : forall chunks,
+  (forall k, drain_all (firstn k (concat chunks)) <> DPanic) ->
+  load_chunks chunks [] 0 [] = load_whole (concat chunks).
+Proof. exact load_chunks_eq_whole. Qed.
+Print Assumptions c04_chunked_eq_whole.
+
+(* ... in particular with fixed-size reads of any size > 0 (loadAOF: 0xFFFF) *)
+Theorem c04_load_aof_eq_whole : forall csz file,
+  (0 < csz)%nat -> (forall k, drain_all (firstn k file) <> DPanic) ->
+  load_aof_sz csz file = load_whole file.
+Proof. exact load_aof_sz_eq_whole. Qed.
+Print Assumptions c04_load_aof_eq_whole.
+
+(* c04_cut for the chunked loader itself: any byte prefix of a log of encoded commands, read in
+   0xFFFF-byte packets, yields exactly the commands wholly inside the cut (no panic hypothesis left). *)
+Theorem c04_cut_chunked : forall cmds q s,
+  Forall cmd_ok cmds -> q ++ s = encs cmds ->
+  load_aof q = Loaded (firstn (inside cmds (len q)) cmds) (len (encs (firstn (inside cmds (len q)) cmds))).
+Proof. exact load_aof_cut. Qed.
+Print Assumptions c04_cut_chunked.
 
 (* non-vacuity: SET k "\r\n*$\000" cut inside the second command *)
 Example c04_nonvacuous :
